@@ -632,12 +632,236 @@ func extractStdio(p *pkgs, f *facts) {
 	js["netrpc"] = map[string]interface{}{"RPCServerFields": rsrvFields, "copyStreamCopiesSrcToDst": copyOK,
 		"serverStreamOf": rpcSrv, "clientStreamOf": rpcCli}
 
-	f.lean = append(f.lean, fmt.Sprintf("def stdio : Stdio.Params := ⟨%d, %s, %s, %s, %s, %s, %s, %d, %d, %d, %d⟩",
+	// ------------------------------------------------------------ lifetime of the gRPC stdio stream
+	bound, chain := stdioStreamCtx(p)
+	leanBound := "none"
+	if bound >= 0 {
+		leanBound = fmt.Sprintf("(some %d)", bound)
+	}
+	js["streamCtx"] = map[string]interface{}{"boundMs": bound, "chain": chain}
+
+	f.lean = append(f.lean, fmt.Sprintf("def stdio : Stdio.Params := ⟨%d, %s, %s, %s, %s, %s, %s, %d, %d, %d, %d, %s⟩",
 		chunk, leanBool(sendsExact), tagStdout, tagStderr, leanBool(skipOnlyEmpty),
 		leanSink(sinkOfTag["STDOUT"]), leanSink(sinkOfTag["STDERR"]),
-		rpcSrv["out"], rpcSrv["err"], rpcCli["out"], rpcCli["err"]))
+		rpcSrv["out"], rpcSrv["err"], rpcCli["out"], rpcCli["err"], leanBound))
 	js["params"] = map[string]interface{}{"chunk": chunk, "sendsExactRead": sendsExact, "tagStdoutCh": tagStdout, "tagStderrCh": tagStderr,
 		"skipOnlyEmpty": skipOnlyEmpty, "cliOnStdout": leanSink(sinkOfTag["STDOUT"]), "cliOnStderr": leanSink(sinkOfTag["STDERR"]),
-		"rpcSrvOut": rpcSrv["out"], "rpcSrvErr": rpcSrv["err"], "rpcCliOut": rpcCli["out"], "rpcCliErr": rpcCli["err"]}
+		"rpcSrvOut": rpcSrv["out"], "rpcSrvErr": rpcSrv["err"], "rpcCliOut": rpcCli["out"], "rpcCliErr": rpcCli["err"],
+		"streamCtxBound": leanBound}
 	f.set("stdio", js)
+}
+
+// ---------------------------------------------------------------- context of the StreamStdio call
+
+// ctxOrigin says where a context expression comes from, inside one function.
+type ctxOrigin struct {
+	kind  string // "param" | "field" | "bounded" | "unknown"
+	index int    // param: position in the parameter list
+	field string // field: rendered selector, e.g. c.doneCtx
+	ms    int64  // bounded: the timeout in ms (0 = not evaluable / a deadline)
+	note  string
+}
+
+// assignsTo counts the assignments (any token, also := shadowing, range and
+// var declarations) to the identifier name below n.
+func assignsTo(n ast.Node, name string) (count int, defs []*ast.AssignStmt) {
+	ast.Inspect(n, func(m ast.Node) bool {
+		switch x := m.(type) {
+		case *ast.AssignStmt:
+			for _, l := range x.Lhs {
+				if id, ok := l.(*ast.Ident); ok && id.Name == name {
+					count++
+					defs = append(defs, x)
+				}
+			}
+		case *ast.RangeStmt:
+			for _, l := range []ast.Expr{x.Key, x.Value} {
+				if id, ok := l.(*ast.Ident); ok && id.Name == name {
+					count++
+				}
+			}
+		case *ast.ValueSpec:
+			for _, id := range x.Names {
+				if id.Name == name {
+					count++
+				}
+			}
+		case *ast.FuncLit:
+			for _, fl := range x.Type.Params.List {
+				for _, id := range fl.Names {
+					if id.Name == name {
+						count++
+					}
+				}
+			}
+		}
+		return true
+	})
+	return
+}
+
+// originOfCtx follows a context expression back through the body of fd:
+// a parameter that is never assigned; a selector (a struct field); a local
+// defined exactly once by context.WithCancel / WithValue / a plain copy of
+// something that can be followed further; or a local defined by
+// context.WithTimeout / WithDeadline (bounded).  Everything else is unknown.
+func originOfCtx(p *pkgs, fd *ast.FuncDecl, e ast.Expr, depth int) ctxOrigin {
+	if depth > 6 {
+		return ctxOrigin{kind: "unknown", note: "derivation too deep"}
+	}
+	switch x := e.(type) {
+	case *ast.ParenExpr:
+		return originOfCtx(p, fd, x.X, depth+1)
+	case *ast.SelectorExpr:
+		return ctxOrigin{kind: "field", field: exprString(x)}
+	case *ast.Ident:
+		n, defs := assignsTo(fd.Body, x.Name)
+		if i := indexOf(paramNames(fd), x.Name); i >= 0 {
+			if n != 0 {
+				return ctxOrigin{kind: "unknown", note: "parameter " + x.Name + " of " + fd.Name.Name + " is reassigned or shadowed"}
+			}
+			return ctxOrigin{kind: "param", index: i}
+		}
+		if n != 1 || len(defs) != 1 || defs[0].Tok != token.DEFINE || len(defs[0].Rhs) != 1 {
+			return ctxOrigin{kind: "unknown", note: x.Name + " in " + fd.Name.Name + " is not defined exactly once with :="}
+		}
+		as := defs[0]
+		if id0, ok := as.Lhs[0].(*ast.Ident); !ok || id0.Name != x.Name {
+			return ctxOrigin{kind: "unknown", note: x.Name + " is not the first result of its definition"}
+		}
+		call, ok := as.Rhs[0].(*ast.CallExpr)
+		if !ok {
+			if len(as.Lhs) == 1 {
+				return originOfCtx(p, fd, as.Rhs[0], depth+1) // ctx2 := ctx
+			}
+			return ctxOrigin{kind: "unknown", note: "definition of " + x.Name + " is not a call"}
+		}
+		switch exprString(call.Fun) {
+		case "context.WithCancel", "context.WithCancelCause", "context.WithoutCancel":
+			if len(call.Args) == 1 {
+				return originOfCtx(p, fd, call.Args[0], depth+1)
+			}
+		case "context.WithValue":
+			if len(call.Args) == 3 {
+				return originOfCtx(p, fd, call.Args[0], depth+1)
+			}
+		case "context.WithTimeout", "context.WithTimeoutCause":
+			if len(call.Args) >= 2 {
+				if v, ok := p.evalInt(call.Args[1]); ok && v > 0 {
+					return ctxOrigin{kind: "bounded", ms: v, note: x.Name + " := " + exprString(call.Fun) + "(…, " + fmt.Sprint(v) + "ms) in " + fd.Name.Name}
+				}
+			}
+			return ctxOrigin{kind: "bounded", note: x.Name + " := " + exprString(call.Fun) + "(…) in " + fd.Name.Name}
+		case "context.WithDeadline", "context.WithDeadlineCause":
+			return ctxOrigin{kind: "bounded", note: x.Name + " := " + exprString(call.Fun) + "(…) in " + fd.Name.Name}
+		}
+		return ctxOrigin{kind: "unknown", note: x.Name + " := " + exprString(call.Fun) + "(…) in " + fd.Name.Name + " is not a recognised derivation"}
+	}
+	return ctxOrigin{kind: "unknown", note: "context expression " + exprString(e) + " not followed"}
+}
+
+// stdioStreamCtx decides where the context of the host's StreamStdio call
+// comes from.  Result -1 = the client's done-context with nothing bounding it:
+//
+//	newGRPCStdioClient(ctx, …):  client.StreamStdio(ctx, …)          ctx a parameter, never reassigned
+//	newGRPCClient(doneCtx, c):   newGRPCStdioClient(doneCtx, …)      doneCtx a parameter, never reassigned
+//	Client.Client():             newGRPCClient(c.doneCtx, c)
+//	every assignment to <x>.doneCtx in the package:  context.WithCancel(context.Background())
+//
+// (plain WithCancel / WithValue derivations in between are followed).  A
+// context.WithTimeout on the path gives its duration in ms; a WithDeadline or a
+// link that cannot be followed gives 0.
+func stdioStreamCtx(p *pkgs) (int64, []string) {
+	var chain []string
+	fail := func(o ctxOrigin, where string) (int64, []string) {
+		if o.kind == "bounded" {
+			return o.ms, append(chain, "BOUNDED: "+o.note)
+		}
+		return 0, append(chain, "NOT FOLLOWED in "+where+": "+o.note+o.field)
+	}
+	// 1. the StreamStdio call
+	ctor := p.fn("", "newGRPCStdioClient")
+	if ctor == nil {
+		return 0, []string{"newGRPCStdioClient not found"}
+	}
+	cs := calls(ctor.Body, "StreamStdio", true)
+	if len(cs) != 1 || len(cs[0].Args) < 1 {
+		return 0, []string{fmt.Sprintf("%d StreamStdio calls in newGRPCStdioClient", len(cs))}
+	}
+	o := originOfCtx(p, ctor, cs[0].Args[0], 0)
+	if o.kind != "param" {
+		return fail(o, "newGRPCStdioClient")
+	}
+	chain = append(chain, fmt.Sprintf("StreamStdio(%s) = parameter %d of newGRPCStdioClient", exprString(cs[0].Args[0]), o.index))
+	// 2. its caller
+	ngc := p.fn("", "newGRPCClient")
+	if ngc == nil {
+		return 0, append(chain, "newGRPCClient not found")
+	}
+	cs2 := calls(ngc.Body, "newGRPCStdioClient", false)
+	if len(cs2) != 1 || len(cs2[0].Args) <= o.index {
+		return 0, append(chain, fmt.Sprintf("%d newGRPCStdioClient calls in newGRPCClient", len(cs2)))
+	}
+	o2 := originOfCtx(p, ngc, cs2[0].Args[o.index], 0)
+	if o2.kind != "param" {
+		return fail(o2, "newGRPCClient")
+	}
+	chain = append(chain, fmt.Sprintf("newGRPCStdioClient(%s) = parameter %d of newGRPCClient", exprString(cs2[0].Args[o.index]), o2.index))
+	// 3. Client.Client
+	cc := p.fn("Client", "Client")
+	if cc == nil {
+		return 0, append(chain, "Client.Client not found")
+	}
+	cs3 := calls(cc.Body, "newGRPCClient", false)
+	if len(cs3) != 1 || len(cs3[0].Args) <= o2.index {
+		return 0, append(chain, fmt.Sprintf("%d newGRPCClient calls in Client.Client", len(cs3)))
+	}
+	o3 := originOfCtx(p, cc, cs3[0].Args[o2.index], 0)
+	recv := ""
+	if cc.Recv != nil && len(cc.Recv.List) == 1 && len(cc.Recv.List[0].Names) == 1 {
+		recv = cc.Recv.List[0].Names[0].Name
+	}
+	if o3.kind != "field" || recv == "" || o3.field != recv+".doneCtx" {
+		return fail(o3, "Client.Client")
+	}
+	chain = append(chain, "newGRPCClient("+o3.field+") in Client.Client")
+	// 4. every assignment to the field
+	nAssign := 0
+	for _, file := range p.files {
+		bad := ""
+		ast.Inspect(file, func(m ast.Node) bool {
+			as, ok := m.(*ast.AssignStmt)
+			if !ok {
+				return true
+			}
+			for i, l := range as.Lhs {
+				se, ok := l.(*ast.SelectorExpr)
+				if !ok || se.Sel.Name != "doneCtx" {
+					continue
+				}
+				nAssign++
+				if !(i == 0 && len(as.Rhs) == 1 && exprString(as.Rhs[0]) == "context.WithCancel(context.Background())") {
+					r := "?"
+					if len(as.Rhs) == 1 {
+						r = exprString(as.Rhs[0])
+					} else if i < len(as.Rhs) {
+						r = exprString(as.Rhs[i])
+					}
+					bad = exprString(l) + " = " + r
+				}
+			}
+			return true
+		})
+		if bad != "" {
+			if strings.Contains(bad, "WithTimeout") || strings.Contains(bad, "WithDeadline") {
+				return 0, append(chain, "BOUNDED: "+bad)
+			}
+			return 0, append(chain, "NOT FOLLOWED: "+bad)
+		}
+	}
+	if nAssign == 0 {
+		return 0, append(chain, "no assignment to .doneCtx found")
+	}
+	chain = append(chain, fmt.Sprintf("%d assignments to .doneCtx, all context.WithCancel(context.Background())", nAssign))
+	return -1, chain
 }
